@@ -179,18 +179,24 @@ LenBytes(fmt, n, le) == IF fmt = 32 THEN Fld(N8(n), 4, le)
 (* DW_CFA_advance_loc d                                                     *)
 InsBytes(ins)   == Tup([i \in 1..Len(ins) |-> IF ins[i] = 0 THEN 0 ELSE 64 + ins[i]])
 InsMeaning(ins) == Tup([i \in 1..Len(ins) |-> IF ins[i] = 0 THEN <<"nop">> ELSE <<"adv", ins[i]>>])
+(* optional field insx: already encoded instruction bytes appended after ins (FrameWriter) *)
+InsX(e) == IF "insx" \in DOMAIN e THEN e.insx ELSE <<>>
 
 (* A CIE is [fmt, ver, aug, asz, seg, caf, daf, ra, lenc, penc, praw, renc, *)
 (* augx, ins] (caf a natural number, daf an integer, both < 2^31 in        *)
 (* magnitude; wide LEB128 values are C09's subject).  Its address size is  *)
 (* the section default except for version 4 in .debug_frame.               *)
 CieAsz(kind, c, secAsz) == IF kind = "debug" /\ c.ver = 4 THEN c.asz ELSE secAsz
+(* the return address register is one byte in version 1 and ULEB128 later;  *)
+(* optional field rau = TRUE forces ULEB128 (what write::cfi emits for      *)
+(* version 1 in .eh_frame)                                                  *)
+RaUleb(c) == IF "rau" \in DOMAIN c THEN c.rau ELSE FALSE
 CieIdBytes(kind, fmt) == IF kind = "eh" THEN Zero(4) ELSE IF fmt = 32 THEN Ones(4) ELSE Ones(8)
 CieHead(kind, c) ==
     <<c.ver>> \o c.aug \o <<0>>
     \o (IF kind = "debug" /\ c.ver = 4 THEN <<c.asz, c.seg>> ELSE <<>>)
     \o UlebNat(c.caf) \o SlebInt(c.daf)
-    \o (IF c.ver = 1 THEN <<c.ra % 256>> ELSE UlebNat(c.ra))
+    \o (IF c.ver = 1 /\ ~RaUleb(c) THEN <<c.ra % 256>> ELSE UlebNat(c.ra))
 
 (* augmentation data contributed by the characters lo..hi of the string *)
 RECURSIVE AugDataRange(_, _, _, _, _)
@@ -209,7 +215,7 @@ CieBody(kind, c, secAsz, le) ==
         ad  == AugData(c, asz, le)
     IN CieIdBytes(kind, c.fmt) \o CieHead(kind, c)
        \o (IF HasZ(c.aug) THEN AugLenBytes(Len(ad) + Len(c.augx)) \o ad \o c.augx ELSE <<>>)
-       \o InsBytes(c.ins)
+       \o InsBytes(c.ins) \o InsX(c)
 EncCie(kind, c, secAsz, le) ==
     LET b == CieBody(kind, c, secAsz, le) IN LenBytes(c.fmt, Len(b), le) \o b
 
@@ -279,7 +285,7 @@ FdeBody(kind, f, c, fdeOff, cieOff, secAsz, le) ==
         ad     == FdeAugData(f, c, asz, le)
     IN cp \o FdeAddrBytes(f, c, asz, le)
        \o (IF c.aug # <<>> THEN AugLenBytes(Len(ad) + Len(f.augx)) \o ad \o f.augx ELSE <<>>)
-       \o InsBytes(f.ins)
+       \o InsBytes(f.ins) \o InsX(f)
 EncFde(kind, f, c, fdeOff, cieOff, secAsz, le) ==
     LET b == FdeBody(kind, f, c, fdeOff, cieOff, secAsz, le) IN LenBytes(f.fmt, Len(b), le) \o b
 
